@@ -174,6 +174,22 @@ def nontrivial(rec):
     return bool(i["ip"] or i["ref"] or i["user"] or i["data"] or i["ua"] != "0" or i["created"]["sec"] != -62135596800)
 
 
+def extra_modules(prop):
+    """[(module, theorem names)] for every Properties/<prop><LETTER>.v."""
+    import glob
+    import re
+    out = []
+    for f in sorted(glob.glob(os.path.join(vlib.COQ, "Properties", prop + "?.v"))):
+        m = re.match(r"^(%s[A-Z])\.v$" % prop, os.path.basename(f))
+        if not m:
+            continue
+        text = re.sub(r"\(\*.*?\*\)", "", open(f).read(), flags=re.S)
+        names = re.findall(r"^\s*(?:Theorem|Lemma|Corollary)\s+(\w+)", text, flags=re.M)
+        if names:
+            out.append((m.group(1), names))
+    return out
+
+
 class CodecCheck:
     """One run of the C16 or C17 check."""
 
@@ -189,6 +205,24 @@ class CodecCheck:
     # ---- stages -------------------------------------------------------
     def proofs(self):
         ok, out = vlib.standard_proof_stage(self.chk, self.prop, self.theorems)
+        # further statement files Properties/<prop><LETTER>.v (audit round:
+        # <prop>I.v = the theorems with the library hypotheses instantiated):
+        # every theorem in them is an obligation too
+        for mod, names in extra_modules(self.prop):
+            first = dict(self.chk.coverage)
+            # (Model/CodecLawCase.v: case records of harness family codeclaws, evaluated by checks/codec_laws.py)
+            xok, xout = vlib.standard_proof_stage(self.chk, mod, names, extra_targets=["Model/CodecLawCase"] if mod == "C17I" else None)
+            for key in ("assumptions_printed", "coq_files_in_closure", "forbidden_scan"):
+                a, b = first.get(key), self.chk.coverage.get(key)
+                if isinstance(a, dict):
+                    self.chk.coverage[key] = dict(a, **(b or {}))
+                elif isinstance(a, list):
+                    self.chk.coverage[key] = sorted(set(a) | set(b or []))
+            if not first.get("gen_tables_ok", True):
+                self.chk.coverage["gen_tables_ok"] = False
+            if first.get("coq_build_log_tail"):
+                self.chk.coverage["coq_build_log_tail"] = first["coq_build_log_tail"]
+            ok, out = ok and xok, out + xout
         self.proof_ok, self.proof_log = ok, out
         # can the regenerated tables be used at all? (a Layout.vo left over from
         # an earlier tree must not be mistaken for the current one)
